@@ -134,6 +134,16 @@ def run_linop(ctx, prop, prop_file, n_quick, n_thorough, want):
 
     made = 0
     attempts = 0
+    # structured part: a seeded sample (thorough: all) of the systematic combinator x operand-kind x storage-dtype grid
+    try:
+        grid = [(A, log, real) for A, log in lingen.structured_trees(sp, rng) for real in (False, True)]
+    except Exception as e:
+        grid = []
+        if "reject" in want:
+            note_fail("gen-exception", "valid construction raised %r" % e, {"kind": "impl-exception", "error": repr(e), "chain": chain(e)})
+    rng.shuffle(grid)
+    grid = grid[:ctx.n(120, len(grid))]
+    n += len(grid)
     while made < n and attempts < 6 * n:
         attempts += 1
         depth = rng.choice([0, 0, 1, 1, 2, 2, 3])
@@ -142,8 +152,13 @@ def run_linop(ctx, prop, prop_file, n_quick, n_thorough, want):
         if depth == 0 and with_opaque:
             kinds = lingen.OPAQUE_LEAVES
         cplx = rng.random() < 0.85
+        force_real = None
         try:
-            c = build_case(sp, rng, depth, kinds, cplx)
+            if grid:
+                c = Case()
+                c.A, c.log, force_real = grid.pop()
+            else:
+                c = build_case(sp, rng, depth, kinds, cplx)
         except Exception as e:       # the generator only builds valid operators: a raise here is a finding for C03
             if "reject" in want:
                 note_fail("gen-exception", "valid construction raised %r" % e, {"kind": "impl-exception", "error": repr(e), "chain": chain(e)})
@@ -171,7 +186,7 @@ def run_linop(ctx, prop, prop_file, n_quick, n_thorough, want):
         has_conv = any(type(o).__name__.startswith("Convolve") for _, o in S.opaque)
         real_ok = not has_conv
         single = False
-        if real_ok and rng.random() < (0.4 if not S.opaque else 0.25):
+        if (real_ok and rng.random() < (0.4 if not S.opaque else 0.25) and force_real is None) or force_real:
             x = np.ascontiguousarray(x.real)
             single = bool(S.opaque)
         yv = cvec(rng, A.oshape, True)
